@@ -10,4 +10,5 @@ CONSTANTS
   FreshStore = TRUE
   RewindsSeekable = FALSE
   FlagsReset = TRUE
+  PipeClosedOnStop = TRUE
 CHECK_DEADLOCK FALSE
